@@ -152,22 +152,42 @@ theorem mateSinglePoint_gene (g og : Genome W) (id : Int) (rs rs' : List Nat) (c
   | mean x y => exact Or.inr (Or.inr ⟨x, List.mem_of_getElem? hok'.1, y, hok'.2.1, hok'.2.2, hr⟩)
   | long y => exact Or.inr (Or.inl ⟨y, hok'.1, hr⟩)
 
+omit [Scalar W] in
+theorem CrossDistinct.symm' {l1 l2 : List (Gene W)} (h : CrossDistinct l1 l2) : CrossDistinct l2 l1 :=
+  fun x hx y hy e => (h y hy x hx e.symm).symm
+
+/-- **the conflict check is dead in the single-point crossover too** when, besides one lineage, a link carries one
+    innovation number across the parents (`CrossDistinct`) and links are pairwise distinct within each: the child's genes
+    are then exactly the realisations of the plan, nothing dropped.  (Under `SameLineage` alone two parents may carry
+    one link under two numbers; then the later origin is dropped - that is `spKeep` in `mateSinglePoint_spec`.) -/
+theorem mateSinglePoint_noconflict (g og : Genome W) (id : Int) (rs rs' : List Nat) (c : Genome W)
+    (h : mateSinglePoint g og id rs = .ok (c, rs')) (hc : Consistent g.genes og.genes)
+    (hs1 : GenesSorted g.genes) (hs2 : GenesSorted og.genes)
+    (hd1 : LinksDistinct g.genes) (hd2 : LinksDistinct og.genes) (hx : CrossDistinct g.genes og.genes) :
+    ∃ cp rs1, Rand.intn (shorter g og).genes.length rs = .ok (cp, rs1) ∧
+      Aligned (Realises c.traits (traitBase g)) c.genes (spPlan cp (shorter g og).genes (longer g og).genes 0 false) := by
+  obtain ⟨_, cp, rs1, hcp, _, hal, _⟩ := mateSinglePoint_spec g og id rs rs' c h hc
+  refine ⟨cp, rs1, hcp, ?_⟩
+  have hnc : ((spPlan cp (shorter g og).genes (longer g og).genes 0 false).map Origin.link).Pairwise (· ≠ ·) := by
+    rcases shorter_longer g og with ⟨e1, e2⟩ | ⟨e1, e2⟩ <;> rw [e1, e2]
+    · exact spPlan_links_distinct cp _ _ hs1 hs2 hd1 hd2 hx
+    · exact spPlan_links_distinct cp _ _ hs2 hs1 hd2 hd1 hx.symm'
+  rw [spKeep_all [] _ hnc (by simp)] at hal
+  exact hal
+
 /-- **matched genes in the single-point child** (parents sharing their first gene - otherwise the child may be
-    gene-less, known finding K1 / `C01_singlepoint_counterexample`): for `x` the gene at position `k` of the parent with
-    fewer genes and `y` a gene of the other parent with the same number, the plan holds the copy of `x` if `k` lies
-    before the crossing point, their average if `k` is the crossing point, and the copy of `y` if `k` lies behind it;
-    and when no two origins of the plan carry the same link, the child holds that gene. -/
+    gene-less, known finding K1 / `C04_singlepoint_K1`): for `x` the gene at position `k` of the parent with fewer
+    genes and `y` a gene of the other parent with the same number, the child holds the copy of `x` if `k` lies before
+    the crossing point, their average if `k` is the crossing point, and the copy of `y` if `k` lies behind it. -/
 theorem mateSinglePoint_matched (g og : Genome W) (id : Int) (rs rs' rs1 : List Nat) (c : Genome W) (cp : Nat)
     (h : mateSinglePoint g og id rs = .ok (c, rs')) (hc : Consistent g.genes og.genes)
-    (hs1 : GenesSorted g.genes) (hs2 : GenesSorted og.genes) (hh : C01.SharedHead g og)
+    (hs1 : GenesSorted g.genes) (hs2 : GenesSorted og.genes)
+    (hd1 : LinksDistinct g.genes) (hd2 : LinksDistinct og.genes) (hcd : CrossDistinct g.genes og.genes)
+    (hh : C01.SharedHead g og)
     (hcp : Rand.intn (shorter g og).genes.length rs = .ok (cp, rs1))
     (k : Nat) (x y : Gene W) (hx : (shorter g og).genes[k]? = some x) (hy : y ∈ (longer g og).genes) (heq : x.inn = y.inn) :
-    let plan := spPlan cp (shorter g og).genes (longer g og).genes 0 false
-    ((k < cp → Origin.short x ∈ plan) ∧ (k = cp → Origin.mean x y ∈ plan) ∧ (k > cp → Origin.long y ∈ plan)) ∧
-    ((plan.map Origin.link).Pairwise (· ≠ ·) →
-      ∃ cg ∈ c.genes, (k < cp → CopyOf c.traits (traitBase g) cg x) ∧ (k = cp → AvgOf c.traits (traitBase g) x y cg) ∧
-        (k > cp → CopyOf c.traits (traitBase g) cg y)) := by
-  intro plan
+    ∃ cg ∈ c.genes, (k < cp → CopyOf c.traits (traitBase g) cg x) ∧ (k = cp → AvgOf c.traits (traitBase g) x y cg) ∧
+      (k > cp → CopyOf c.traits (traitBase g) cg y) := by
   have hs : GenesSorted (shorter g og).genes ∧ GenesSorted (longer g og).genes := by
     rcases shorter_longer g og with ⟨e1, e2⟩ | ⟨e1, e2⟩ <;> rw [e1, e2]
     · exact ⟨hs1, hs2⟩
@@ -180,12 +200,10 @@ theorem mateSinglePoint_matched (g og : Genome W) (id : Int) (rs rs' rs1 : List 
     · simp only [Option.mem_def] at hx0 hy0; rw [hx0, hy0] at hh; simp at hh; omega
   have hm := spPlan_matched cp _ _ 0 false hs.1 hs.2 (Or.inr hhead) k x y hx hy heq
   simp only [Nat.zero_add] at hm
-  refine ⟨hm, fun hnc => ?_⟩
-  obtain ⟨_, cp', rs1', hcp', _, hal, _⟩ := mateSinglePoint_spec g og id rs rs' c h hc
+  obtain ⟨cp', rs1', hcp', hal⟩ := mateSinglePoint_noconflict g og id rs rs' c h hc hs1 hs2 hd1 hd2 hcd
   rw [hcp] at hcp'
   simp only [Except.ok.injEq, Prod.mk.injEq] at hcp'
   obtain ⟨rfl, rfl⟩ := hcp'
-  rw [spKeep_all [] _ hnc (by simp)] at hal
   rcases Nat.lt_trichotomy k cp with hlt | hlt | hlt
   · obtain ⟨cg, hcg, hr⟩ := hal.right _ (hm.1 hlt)
     exact ⟨cg, hcg, fun _ => hr, fun e => by omega, fun e => by omega⟩
